@@ -1,5 +1,4 @@
 import SparseSpace.Lemmas.RombergAll
-import SparseSpace.Lemmas.RombergFix
 /-!
 # C11 — Romberg extrapolation grids give consistent, exact-to-order weights
 
@@ -43,14 +42,14 @@ example : supportWeights ⟨1/2, 5/8, 1, 3, []⟩ 0 1 = (7/128, 9/128) := by dec
 
 /-- **weights sum to the interval length and integrate linear functions exactly.**
     Whenever `set_grid` + `get_weights` return a weight vector `ws` (no assertion fires) — for EVERY grid, level
-    list, slice grouping (UNIT, GROUPED, GROUPED_OPTIMIZED), slice version (Romberg, trapezoid), with or without
-    forced completion of the tree, for default containers, and for Simpson containers with unit grouping —
+    list, slice grouping (UNIT, GROUPED, GROUPED_OPTIMIZED), slice version (Romberg, trapezoid), container version
+    (default, Simpson), with or without forced completion of the tree —
     * there is one weight per point of the grid the object works on (`st.grid`; it is the given grid unless the
       tree is completed), whose end points `a`, `b` are those of the given grid,
     * the weights sum to `b - a`,
     * `integrate` (the scalar product with the function values) is exact for every affine function. -/
 theorem extrapolation_weights_exact (cfg : Cfg) (grid : List ℚ) (lv : List ℕ) (ws : List ℚ)
-    (hcv : cfg.contVer = .default ∨ cfg.grouping = .unit) (h : weights cfg grid lv = .ok ws) :
+    (h : weights cfg grid lv = .ok ws) :
     ∃ (st : EG) (a b : ℚ), setGrid cfg grid lv = some st ∧ firstLast grid = some (a, b) ∧
       (cfg.forceBalanced = false → st.grid = grid) ∧ st.grid.Nodup ∧
       ws.length = st.grid.length ∧ rsum ws = b - a ∧
@@ -68,7 +67,7 @@ theorem extrapolation_weights_exact (cfg : Cfg) (grid : List ℚ) (lv : List ℕ
       simp only [Res.ok.injEq] at h
       subst h
       obtain ⟨e1, e2⟩ := setGrid_ends cfg grid lv st h1
-      obtain ⟨w1, w2, w3⟩ := setGrid_weights cfg grid lv st w hcv h1 h2
+      obtain ⟨w1, w2, w3⟩ := setGrid_weights cfg grid lv st w h1 h2
       refine ⟨st, st.a, st.b, rfl, e1, fun hf => (e2 hf).1, w2, w1, ?_, ?_⟩
       · have := w3 0 1
         have hf : (fun y : ℚ => 0 * y + 1) = fun _ => (1 : ℚ) := by funext y; ring
@@ -89,27 +88,21 @@ example : weights ⟨.optimized, .trapezoid, .default, true⟩ [0, 1/4, 3/8, 1/2
     grid is obtained from `[a, b]`, `a < b`, by repeated bisection, a midpoint getting the level
     `max(left level, right level) + 1`): every slice has width `(b-a)/2^max_level`, a support sequence of length
     `max_level + 1` whose pairs enclose the slice, hence `set_grid` and `get_weights` return a weight vector for every
-    grouping, slice version and container version — without forced completion, and with it as soon as the tree has
-    an inner point (the completed tree is again a valid refinement tree) -/
-theorem valid_tree_weights_defined (cfg : Cfg) (grid : List ℚ) (lv : List ℕ) (hv : ValidTree grid lv)
-    (hfb : cfg.forceBalanced = false ∨ 3 ≤ grid.length) : ∃ ws, weights cfg grid lv = .ok ws := by
-  cases hb : cfg.forceBalanced with
-  | false => exact valid_weights_defined cfg hb grid lv hv
-  | true =>
-    rcases hfb with h | h
-    · rw [hb] at h; simp at h
-    · exact valid_weights_defined_fb cfg hb grid lv hv h
+    grouping, slice version and container version, with or without forced completion (the completed tree is again
+    a valid refinement tree; the unrefined grid `[a, b]` is left as it is) -/
+theorem valid_tree_weights_defined (cfg : Cfg) (grid : List ℚ) (lv : List ℕ) (hv : ValidTree grid lv) :
+    ∃ ws, weights cfg grid lv = .ok ws :=
+  valid_weights_defined_all cfg grid lv hv
 
-/-- **the property's first clause, unconditional**: on every valid refinement tree, for every slice grouping and
-    slice version with default containers (and Simpson containers with unit grouping), with or without forced
-    completion (≥ 3 points), weights ARE returned, sum to the interval length and integrate affine functions exactly -/
-theorem valid_tree_weights_exact (cfg : Cfg) (grid : List ℚ) (lv : List ℕ) (hv : ValidTree grid lv)
-    (hcv : cfg.contVer = .default ∨ cfg.grouping = .unit) (hfb : cfg.forceBalanced = false ∨ 3 ≤ grid.length) :
+/-- **the property's first clause, unconditional**: on every valid refinement tree, for every slice grouping, slice
+    version and container version, with or without forced completion, weights ARE returned, sum to the interval
+    length and integrate affine functions exactly -/
+theorem valid_tree_weights_exact (cfg : Cfg) (grid : List ℚ) (lv : List ℕ) (hv : ValidTree grid lv) :
     ∃ (ws : List ℚ) (st : EG) (a b : ℚ), weights cfg grid lv = .ok ws ∧ setGrid cfg grid lv = some st ∧
       firstLast grid = some (a, b) ∧ ws.length = st.grid.length ∧ rsum ws = b - a ∧
       ∀ α β : ℚ, dot ws (st.grid.map fun x => α * x + β) = α * (b ^ 2 - a ^ 2) / 2 + β * (b - a) := by
-  obtain ⟨ws, hws⟩ := valid_tree_weights_defined cfg grid lv hv hfb
-  obtain ⟨st, a, b, h1, h2, _, _, h5, h6, h7⟩ := extrapolation_weights_exact cfg grid lv ws hcv hws
+  obtain ⟨ws, hws⟩ := valid_tree_weights_defined cfg grid lv hv
+  obtain ⟨st, a, b, h1, h2, _, _, h5, h6, h7⟩ := extrapolation_weights_exact cfg grid lv ws hws
   exact ⟨ws, st, a, b, hws, h1, h2, h5, h6, h7⟩
 
 /-- non-vacuity: the adaptive grid of the repository's tests is a valid refinement tree -/
@@ -197,63 +190,46 @@ example : RefSeg (0, 0) [(1/4, 2), (1/2, 1), (3/4, 2)] (1, 0) ∧
     RefSeg.bisect _ _ _ [] [] (by decide +kernel) (by decide) (RefSeg.leaf _ _) (RefSeg.leaf _ _)
   exact RefSeg.bisect (0, 0) (1, 0) (1/2, 1) _ _ (by decide +kernel) (by decide) hl hr
 
-/-! ## grouped Simpson containers: the property fails on the unchanged code -/
+/-! ## grouped Simpson containers and the unrefined grid -/
 
-/-- **counterexample** (defect of the code, mirrored by the model): with `SIMPSON_ROMBERG` containers and `GROUPED`
-    slices the weights of the refinement tree `[0,1/8,1/4,3/8,1/2,3/4,1]` sum to `1354/1323 ≈ 1.0234`, not to 1.
-    Hence `extrapolation_weights_exact` cannot drop its hypothesis `hcv`. -/
-theorem simpson_grouped_counterexample :
-    ¬ (∀ (cfg : Cfg) (grid : List ℚ) (lv : List ℕ) (ws : List ℚ) (a b : ℚ),
-        weights cfg grid lv = .ok ws → firstLast grid = some (a, b) → rsum ws = b - a) := by
-  intro hall
-  have hw : weights ⟨.grouped, .romberg, .simpson, false⟩ [0, 1/8, 1/4, 3/8, 1/2, 3/4, 1] [0, 3, 2, 3, 1, 2, 0]
-      = .ok [31/882, 256/1323, 8/189, 256/1323, 47/441, 8/21, 1/14] := by decide +kernel
-  have := hall _ _ _ _ 0 1 hw (by decide +kernel)
-  revert this
-  decide +kernel
-
-/-- **what grouped Simpson containers compute, for every size**: a container of `2^(k+1)` equal consecutive slices
-    on `[x, x + 2^(k+1) h]` integrates an affine function to `(1 - c_{k+1,0}/3)` times its integral with
-    `c_{k+1,0} ≠ 0` (the level-0 row of `RombergSimpsonWeights` is `h/3, h/3` instead of `h/2, h/2`); so EVERY
-    grouped Simpson container misses the length of its interval. (`_partial`: unit grouping is covered by
-    `extrapolation_weights_exact`.) -/
-theorem simpson_container_partial (sv : SliceVer) (s s' : Slice) (r : List Slice) (k : ℕ) (x h α β : ℚ) (hpos : 0 < h)
+/-- **grouped Simpson containers**: the weights `2·boundary + Σ inner` of a Simpson container of depth `k+1` sum to
+    the length of its interval (level-0 row `h/2, h/2`, Simpson rows `h/3, 4h/3, 2h/3, …` from level 1 on), and a
+    container of `2^(k+1)` equal consecutive slices integrates every affine function exactly — for every size.
+    (Together with `extrapolation_weights_exact` this is the sum / linear clause for `SIMPSON_ROMBERG` with `GROUPED`
+    and `GROUPED_OPTIMIZED` slices.) -/
+theorem simpson_container_exact (sv : SliceVer) (s s' : Slice) (r : List Slice) (k : ℕ) (x h α β : ℚ) (hpos : 0 < h)
     (hlen : (s :: s' :: r).length = 2 ^ (k + 1)) (hE : Equi x h (s :: s' :: r))
     (cs : List (ℚ × ℚ)) (hc : containerContribs sv .simpson (s :: s' :: r) = some cs) :
-    wsum (fun y => α * y + β) cs
-      = (1 - coeff x (x + 2 ^ (k + 1) * h) 3 (k + 1) 0 / 3) * (prim α β (x + 2 ^ (k + 1) * h) - prim α β x)
-      ∧ coeff x (x + 2 ^ (k + 1) * h) 3 (k + 1) 0 ≠ 0 :=
-  simpson_container_wsum sv s s' r k x h α β hpos hlen hE cs hc
+    2 * simpBoundary x (x + 2 ^ (k + 1) * h) (k + 1)
+        + levelSum (fun l => simpInner x (x + 2 ^ (k + 1) * h) l (k + 1)) (k + 1) 1 = 2 ^ (k + 1) * h ∧
+    wsum (fun y => α * y + β) cs = prim α β (x + 2 ^ (k + 1) * h) - prim α β x := by
+  have hab : x ≠ x + 2 ^ (k + 1) * h := by
+    have : (0 : ℚ) < 2 ^ (k + 1) * h := mul_pos (pow_pos (by norm_num) _) hpos
+    linarith
+  have ht := simpson_total x (x + 2 ^ (k + 1) * h) k hab
+  refine ⟨by rw [ht]; ring, ?_⟩
+  rw [containerContribs_wsum sv .simpson s s' r k x h α β hlen hE cs hc]
+  simp only [bwOf, iwOf]
+  rw [ht]
+  simp only [prim]
+  ring
 
 example : Equi 0 (1/2) [⟨0, 1/2, 0, 1, []⟩, ⟨1/2, 1, 1, 0, []⟩] ∧
     containerContribs .romberg .simpson [⟨0, 1/2, 0, 1, []⟩, ⟨1/2, 1, 1, 0, []⟩]
-      = some [(0, 1/7), (1/2, 16/21), (1, 1/7)] := by
+      = some [(0, 5/42), (1/2, 16/21), (1, 5/42)] := by
   refine ⟨⟨rfl, by decide +kernel, by decide +kernel, by decide +kernel, trivial⟩, by decide +kernel⟩
 
-/-- **the proposed repair is correct** (statement about the PROPOSED code, see `handoff/C11.md`): if the level-0
-    row of `RombergSimpsonWeights.get_boundary_point_weight` is `h/2` instead of `h/3` (`simpBoundaryFixed`), a Simpson
-    container of `2^(k+1)` equal slices weighs exactly its length and integrates affine functions exactly -/
-theorem simpson_fix_correct (a b : ℚ) (k : ℕ) (x h α β : ℚ) (hab : a ≠ b) (hpos : 0 < h) :
-    2 * simpBoundaryFixed a b (k + 1) + levelSum (fun l => simpInner a b l (k + 1)) (k + 1) 1 = b - a ∧
-    wsum (fun y => α * y + β)
-      ((apPoints x h (2 ^ (k + 1) + 1)).zip
-        (simpBoundaryFixed x (x + 2 ^ (k + 1) * h) (k + 1)
-          :: ((perfect (k + 1) 1).map (fun l => simpInner x (x + 2 ^ (k + 1) * h) l (k + 1))
-              ++ [simpBoundaryFixed x (x + 2 ^ (k + 1) * h) (k + 1)])))
-      = prim α β (x + 2 ^ (k + 1) * h) - prim α β x :=
-  ⟨simpson_fixed_total a b k hab, simpson_fixed_container k x h α β hpos⟩
+/-- the refinement tree `[0,1/8,1/4,3/8,1/2,3/4,1]` with grouped Simpson containers (containers of 4 and 2 slices) -/
+example : weights ⟨.grouped, .romberg, .simpson, false⟩ [0, 1/8, 1/4, 3/8, 1/2, 3/4, 1] [0, 3, 2, 3, 1, 2, 0]
+    = .ok [187/5292, 256/1323, 8/189, 256/1323, 251/2646, 8/21, 5/84] := by decide +kernel
 
-example : simpBoundaryFixed 0 1 1 = 5 / 42 ∧ simpBoundary 0 1 1 = 1 / 7 ∧ simpInner 0 1 1 1 = 16 / 21 := by
-  decide +kernel
+/-- **the unrefined grid** `[a, b]`, `a < b`: every configuration — also with `force_balanced_refinement_tree`, which
+    only completes trees with an inner point — returns the trapezoidal weights `(b-a)/2, (b-a)/2` -/
+theorem two_point_grid_weights (cfg : Cfg) (a b : ℚ) (hab : a < b) :
+    weights cfg [a, b] [0, 0] = .ok [(b - a) / 2, (b - a) / 2] :=
+  two_points cfg a b hab
 
-/-- **counterexample** (edge-case defect): with `force_balanced_refinement_tree` the unrefined grid `[a, b]`
-    (levels `[0, 0]`, a valid — trivial — refinement tree) makes `set_grid` raise: `GridBinaryTree.init_tree`
-    asserts that there is an inner point -/
-theorem force_balanced_two_points_counterexample (cfg : Cfg) (a b : ℚ) (h : cfg.forceBalanced = true) :
-    weights cfg [a, b] [0, 0] = .assertSetGrid :=
-  forceBalanced_two_points cfg a b h
-
-example : weights ⟨.unit, .romberg, .default, false⟩ [0, 1] [0, 0] = .ok [1/2, 1/2] := by decide +kernel
+example : weights ⟨.optimized, .trapezoid, .simpson, true⟩ [0, 1] [0, 0] = .ok [1/2, 1/2] := by decide +kernel
 
 /-! ## binary tree completion -/
 
